@@ -116,6 +116,24 @@ def run(ctx):
                           live_kw={"inline": lambda f, n=live: f.name == n})
             _verdict(run, "C18.R3", lf, "normalise once, then open", r, m)
 
+    # the public functions: a new loader per call, arguments as given; and
+    # the package: opener (C18.R6)
+    for live, ref, rule, what in (
+            ("loadSchema", "loadSchema", "C18.R3", "new schema loader, URL"),
+            ("loadSchemaFile", "loadSchemaFile", "C18.R3",
+             "new schema loader, file and URL"),
+            ("loadConfig", "loadConfig", "C18.R3", "loader for the schema, "
+             "URL"),
+            ("loadConfigFile", "loadConfigFile", "C18.R3",
+             "loader for the schema, file and URL"),
+            ("openPackageResource", "openPackageResource", "C18.R6",
+             "package resources: errors, search along __path__, "
+             "normalised file: URL")):
+        lf = m.fn(LD + "." + live)
+        r = X.compare(P, lf, X.spec_function(m, "ref_loader.py", ref),
+                      rename=_rename)
+        _verdict(run, rule, lf, what, r, m)
+
     _r4(ctx)
     # the fourth gate: an %include target goes through normalizeURL (and so
     # through its fragment gate) on every path, whatever form it has
@@ -266,7 +284,11 @@ def _r4(ctx):
     for q, opener in ((SP + ".BaseParser.start_import", "loadURL"),
                       (SP + ".SchemaParser.start_schema", "extendSchema")):
         fn = m.fn(q)
-        paths = A.Interp(fn, P, try_raises=False).paths()
+        # (a loop that carries state from one reference to the next is run
+        # for two references: a join base taken over from the previous one
+        # shows on the second)
+        paths = A.Interp(fn, P, try_raises=False,
+                         loop_policy=A.carried_state_policy(fn.node)).paths()
         n_open = 0
         bad = []
         for p in paths:
@@ -280,9 +302,15 @@ def _r4(ctx):
                 # the opened URL must be the first component of a urldefrag
                 # result whose second component is falsy on this path, and the
                 # defragmented text must be a urljoin against self._url
-                ok = (arg[0] == "index" and arg[2] == A.const(0)
-                      and "urldefrag(" in txt
-                      and "urljoin(self._url, " in txt)
+                ok = False
+                if arg[0] == "index" and arg[2] == A.const(0) \
+                        and arg[1][0] == "call" \
+                        and A.fmt(arg[1][1]).endswith("urldefrag") \
+                        and len(arg[1][2]) == 1:
+                    j = arg[1][2][0]
+                    ok = (j[0] == "call" and A.fmt(j[1]).endswith("urljoin")
+                          and len(j[2]) == 2
+                          and j[2][0] == ("attr", ("self",), "_url"))
                 gate = [a for a in p.order if a[0] == "truthy"
                         and a[1][0] == "index" and a[1][1] == arg[1]
                         and a[1][2] == A.const(1)]
